@@ -793,6 +793,13 @@ func stages() []stage {
 		specStage("route-duplicate-path", "route-build", "rdup.yaml", specHead+"paths:\n  /a/{x}:\n    get:\n      parameters: ["+pathParam("x", "string")+"]\n"+okResp+"  /a/{y}:\n    get:\n      parameters: ["+pathParam("y", "string")+"]\n"+okResp, true),
 		specStage("route-duplicate-path-escaped", "route-build", "rdup2.yaml", specHead+"paths:\n  /a/b:\n    get:\n"+okResp+"  /a/%62:\n    get:\n"+okResp, true),
 		specStage("route-adjacent-parameters", "route-build", "radj.yaml", specHead+"paths:\n  /a/{x}{y}:\n    get:\n      parameters: ["+pathParam("x", "string")+","+pathParam("y", "string")+"]\n"+okResp, true),
+		// the configuration asks for the expanded document to be written INTO the target; generation fails later
+		{Name: "expand-into-target-then-route-conflict", Group: "route-build", Flags: []string{"--config", "cfg.yml"}, Pos: []string{"radj.yaml"},
+			Files: map[string]string{"cfg.yml": "expand: ../target/openapi_expanded.yml\n",
+				"radj.yaml": specHead + "paths:\n  /a/{x}{y}:\n    get:\n      parameters: [" + pathParam("x", "string") + "," + pathParam("y", "string") + "]\n" + okResp}, Expect: true},
+		{Name: "expand-into-target-then-ir-conflict", Group: "ir-build", Flags: []string{"--config", "cfg.yml"}, Pos: []string{"opconf.yaml"},
+			Files: map[string]string{"cfg.yml": "expand: ../target/openapi_expanded.yml\n",
+				"opconf.yaml": specHead + "paths:\n  /a:\n    get:\n      operationId: foo\n" + okResp + "  /b:\n    get:\n      operationId: Foo\n" + okResp}, Expect: true},
 		// after the IR was built, before anything is written: the target path cannot be listed
 		{Name: "target-is-regular-file", Group: "target-path", Pos: okPos, Files: ok, Target: "blocker", Expect: true},
 		{Name: "target-below-regular-file", Group: "target-path", Pos: okPos, Files: ok, Target: "blocker/sub", Expect: true},
